@@ -69,7 +69,24 @@ def yoffHand (sx sy theta : α) : α :=
 def modelValHand (k peak xo yo sx sy theta x y : α) : α :=
   gaussHand x y peak (xo - R.ofNat 1) (yo - R.ofNat 1) (sx * k) (sy * k) theta
 
-/-- the regenerated arithmetic leaves of `make_model` -/
+/-! fallbacks for the sliced pieces (skip rule, mask thresholds, add/subtract dispatch, FWHM2CC) -/
+
+/-- lower / upper bound of the 1-based centre coordinate on an axis of length `n`: `0.5`, `n + 0.5` -/
+def skipLoHand (_n : α) : α := R.ofSci 5 true 1
+def skipHiHand (n : α) : α := n + R.ofSci 5 true 1
+/-- the two comparison operators of `LO <= xo < HI`: `2·[first is ≤] + [second is ≤]` -/
+def skipOpsHand : Nat := 2
+/-- `frac*src.peak_flux` and `sigma*src.local_rms` (parameter list of the slice: frac sigma peak rms) -/
+def thrFracHand (frac _sigma peak _rms : α) : α := frac * peak
+def thrSigmaHand (_frac sigma _peak rms : α) : α := sigma * rms
+/-- the mask comparison `model >= threshold`: 1 for `>=`, 0 for `>` -/
+def maskOpHand : Nat := 1
+/-- `if add or mask: data + model else: data - model` as 1 (plus) / 0 (minus); flags are 1 = True -/
+def residPlusHand (add mask : Nat) : Nat := if add = 1 ∨ mask = 1 then 1 else 0
+/-- `FWHM2CC = 1 / (2 * np.sqrt(2 * np.log(2)))` as a function of `ln2 = np.log(2)` -/
+def fwhm2ccOfHand (ln2 : α) : α := R.ofNat 1 / (R.ofNat 2 * R.sqrt (R.ofNat 2 * ln2))
+
+/-- the regenerated pieces of `make_model` / `make_residual` -/
 structure Leaves (α : Type) where
   /-- `xoff sx sy theta` -/
   xoff : α → α → α → α
@@ -77,8 +94,26 @@ structure Leaves (α : Type) where
   yoff : α → α → α → α
   /-- `modelVal FWHM2CC peak xo yo sx sy theta x y` -/
   modelVal : α → α → α → α → α → α → α → α → α → α
+  /-- skip rule, row axis: bounds as functions of `shape[0]`, operator code -/
+  skipLoX : α → α
+  skipHiX : α → α
+  skipOpsX : Nat
+  /-- skip rule, column axis -/
+  skipLoY : α → α
+  skipHiY : α → α
+  skipOpsY : Nat
+  /-- mask thresholds `thrFrac frac sigma peak rms`, `thrSigma frac sigma peak rms`, comparison code -/
+  thrFrac : α → α → α → α → α
+  thrSigma : α → α → α → α → α
+  maskOp : Nat
+  /-- add / subtract dispatch of `make_residual` -/
+  residPlus : Nat → Nat → Nat
 
-def handLeaves : Leaves α := ⟨xoffHand, yoffHand, modelValHand⟩
+def handLeaves : Leaves α :=
+  { xoff := xoffHand, yoff := yoffHand, modelVal := modelValHand,
+    skipLoX := skipLoHand, skipHiX := skipHiHand, skipOpsX := skipOpsHand,
+    skipLoY := skipLoHand, skipHiY := skipHiHand, skipOpsY := skipOpsHand,
+    thrFrac := thrFracHand, thrSigma := thrSigmaHand, maskOp := maskOpHand, residPlus := residPlusHand }
 
 end leaves
 
@@ -140,6 +175,17 @@ def half : α := R.ofSci 5 true 1
 /-- repaired skip test on one axis: the 0-based centre `xo-1` lies in `[-0.5, n-0.5)` -/
 def onAxis (xo : α) (n : Nat) : Bool := RX.leb half xo && RX.ltb xo (R.ofNat n + half)
 
+/-- one comparison of the skip chain: `≤` if `le`, else `<` -/
+def cmpG (le : Bool) (a b : α) : Bool := if le then RX.leb a b else RX.ltb a b
+
+/-- GLUE (hand-written, fixed): the skip test `not LO op₁ xo op₂ HI` assembled from the sliced bounds and the
+    operator code `2·[op₁ is ≤] + [op₂ is ≤]` -/
+def onAxisG (lo hi : α → α) (ops : Nat) (xo : α) (n : Nat) : Bool :=
+  cmpG (ops / 2 % 2 == 1) (lo (R.ofNat n)) xo && cmpG (ops % 2 == 1) xo (hi (R.ofNat n))
+
+def Leaves.onX (L : Leaves α) : α → Nat → Bool := onAxisG L.skipLoX L.skipHiX L.skipOpsX
+def Leaves.onY (L : Leaves α) : α → Nat → Bool := onAxisG L.skipLoY L.skipHiY L.skipOpsY
+
 /-- the pinned tree's test `0 < xo < shape` (1-based coordinate against 0-based bounds) -/
 def onAxisPinned (xo : α) (n : Nat) : Bool := RX.ltb (R.ofNat 0) xo && RX.ltb xo (R.ofNat n)
 
@@ -148,10 +194,10 @@ def Src.resolve (wcs : Wcs α) (s : Src α) : RSrc α :=
     pix := wcs s.ra s.dec (s.a / R.ofNat 3600) (s.b / R.ofNat 3600) s.pa }
 
 /-- the index window of one source on an `nx × ny` image (`nx` rows, `ny` columns);
-    `none` = the source is skipped (`continue`).  `onA` is the per-axis skip test. -/
-def windowWith (onA : α → Nat → Bool) (L : Leaves α) (nx ny : Nat) (p : Pix α) : Option Win :=
-  if !(onA p.xo nx) then none
-  else if !(onA p.yo ny) then none
+    `none` = the source is skipped (`continue`).  `onX`, `onY` are the per-axis skip tests. -/
+def windowWith (onX onY : α → Nat → Bool) (L : Leaves α) (nx ny : Nat) (p : Pix α) : Option Win :=
+  if !(onX p.xo nx) then none
+  else if !(onY p.yo ny) then none
   else
     let xoff := L.xoff p.sx p.sy p.theta
     let yoff := L.yoff p.sx p.sy p.theta
@@ -164,7 +210,7 @@ def windowWith (onA : α → Nat → Bool) (L : Leaves α) (nx ny : Nat) (p : Pi
     else some { x0 := clipLo (RX.floorI xmin), x1 := clipHi (RX.ceilI xmax) nx,
                 y0 := clipLo (RX.floorI ymin), y1 := clipHi (RX.ceilI ymax) ny }
 
-def window (L : Leaves α) (nx ny : Nat) (p : Pix α) : Option Win := windowWith onAxis L nx ny p
+def window (L : Leaves α) (nx ny : Nat) (p : Pix α) : Option Win := windowWith L.onX L.onY L nx ny p
 
 /-- the value the code adds at index `(i, j)` for source `s` -/
 def srcVal (L : Leaves α) (k : α) (s : RSrc α) (i j : Nat) : α :=
@@ -193,17 +239,20 @@ def makeModel (L : Leaves α) (k : α) (wcs : Wcs α) (nx ny : Nat) (cat : List 
 /-! ### mask mode -/
 
 /-- the per-source threshold: `frac*src.peak_flux` if `frac is not None`, else `sigma*src.local_rms` -/
-def thr (frac : Option α) (sigma : α) (s : RSrc α) : α :=
+def thr (L : Leaves α) (frac : Option α) (sigma : α) (s : RSrc α) : α :=
   match frac with
-  | some f => f * s.peak
-  | none => sigma * s.rms
+  | some f => L.thrFrac f sigma s.peak s.rms
+  | none => L.thrSigma (R.ofNat 0) sigma s.peak s.rms
+
+/-- GLUE: `model >= threshold` (or `>` if the sliced operator code says so) -/
+def maskHit (L : Leaves α) (t v : α) : Bool := if L.maskOp == 1 then RX.leb t v else RX.ltb t v
 
 /-- one iteration of the loop with `mask=True`: `m[x[indices], y[indices]] = nan` where `model >= thr` -/
 def maskStep (L : Leaves α) (k : α) (nx ny : Nat) (frac : Option α) (sigma : α)
     (blank : Nat → Nat → Bool) (s : RSrc α) : Nat → Nat → Bool :=
   match window L nx ny s.pix with
   | none => blank
-  | some w => fun i j => blank i j || (w.mem i j && RX.leb (thr frac sigma s) (srcVal L k s i j))
+  | some w => fun i j => blank i j || (w.mem i j && maskHit L (thr L frac sigma s) (srcVal L k s i j))
 
 /-- the set of blanked (NaN) pixels of `make_model(..., mask=True, frac, sigma)` -/
 def maskModelR (L : Leaves α) (k : α) (nx ny : Nat) (frac : Option α) (sigma : α)
@@ -220,15 +269,18 @@ def maskImage (blank : Nat → Nat → Bool) : Nat → Nat → Option α :=
 
 /-! ### make_residual -/
 
-/-- `residual = data + model if (add or mask) else data - model`; `none` is NaN -/
+/-- GLUE: `residual = data + model if <sliced test> else data - model`; in mask mode the model image is NaN on the
+    blanked pixels and 0 elsewhere; `none` is NaN -/
 def residualR (L : Leaves α) (k : α) (nx ny : Nat) (add mask : Bool) (frac : Option α) (sigma : α)
     (data : Img α) (cat : List (RSrc α)) : Nat → Nat → Option α :=
+  let plus : Bool := L.residPlus (if add then 1 else 0) (if mask then 1 else 0) == 1
   if mask then
     let blank := maskModelR L k nx ny frac sigma cat
-    fun i j => if blank i j then none else some (data i j + R.ofNat 0)
+    fun i j => if blank i j then none
+               else some (if plus then data i j + R.ofNat 0 else data i j - R.ofNat 0)
   else
     let m := makeModelR L k nx ny cat
-    if add then fun i j => some (data i j + m i j) else fun i j => some (data i j - m i j)
+    if plus then fun i j => some (data i j + m i j) else fun i j => some (data i j - m i j)
 
 def subtractModel (data m : Img α) : Img α := fun i j => data i j - m i j
 def addModel (data m : Img α) : Img α := fun i j => data i j + m i j
